@@ -16,14 +16,19 @@ from ..main import PropSpec
 
 
 def build_classes(marker, ss, nondict):
-    base = rp.SupportRemoteGetState if marker else object
-    R = pk.make_class("R", base, gs=(4 if nondict else 2), ss=(1 if (ss or nondict) else 0), first=True)
+    """marker: 0 every opt-in class duck-typed / 1 every one marker-derived / 2 root marker-derived, the others duck-typed /
+    3 root duck-typed, the others marker-derived.  Returns ((class of the root, class of the others), Plain)."""
+    def mk(name, derived):
+        base = rp.SupportRemoteGetState if derived else object
+        return pk.make_class(name, base, gs=(4 if nondict else 2), ss=(1 if (ss or nondict) else 0), first=True)
+    R = mk("R", marker in (1, 2))
+    R2 = R if marker in (0, 1) else mk("R2", marker == 3)
     Plain = pk.make_class("Plain", object)
-    return R, Plain
+    return (R, R2), Plain
 
 
 def build_graph(n, p2, p3, hs, top, share, R, Plain):
-    inst = [pk.new_instance(R, "i%d" % k, 10 + k) for k in range(n)]
+    inst = [pk.new_instance(R[0] if k == 0 else R[1], "i%d" % k, 10 + k) for k in range(n)]
     parents = [None, 0, p2, p3]
     for k in range(1, n):
         par = inst[min(parents[k], k - 1)]
@@ -79,7 +84,7 @@ def check_roundtrip(g, inst, ss, label):
     after = pk.canon(got[1], ignore=("seen_remote", "via_ss"))
     if after != before:
         return Outcome(label + ".graph-shape-differs", True, "before=%r after=%r" % (before, after))
-    loaded = [o for o in pk.instances(got[1]) if type(o).__name__ == "R"]
+    loaded = [o for o in pk.instances(got[1]) if type(o).__name__ in ("R", "R2")]
     if len(loaded) != n:
         return Outcome(label + ".instance-count-differs", True)
     for o in loaded:
@@ -105,7 +110,7 @@ def _h_arr(n, p2, p3, h1, h2, h3, top, share, ss, marker, nondict):
         n = max(1, _c(n, 5))
         p2, p3 = _c(p2, 2), _c(p3, 3)
         hs = [0, _c(h1, 5), _c(h2, 5), _c(h3, 5)]
-        top, share, ss, marker, nondict = _c(top, 4), _c(share, 4), _c(ss, 2), _c(marker, 2), _c(nondict, 2)
+        top, share, ss, marker, nondict = _c(top, 4), _c(share, 4), _c(ss, 2), _c(marker, 4), _c(nondict, 2)
         ev("arr", n, p2, p3, str(hs), top, share, ss, marker, nondict)
         # every choice is concrete from here on (no symbolic value reaches pyworkers in this harness),
         # so the opcode tracer is suspended: the solver's job was to enumerate the feasible choices.
@@ -130,12 +135,12 @@ _FUNCS = ["pyworkers._remote_pickle.remote_pickler_3_6:RemotePickler36.remote_re
           "pyworkers.remote_pickle:remote_loads", "pyworkers.remote_pickle:remote_dumps"]
 
 _params = OrderedDict([("n", (1, 4)), ("p2", (0, 1)), ("p3", (0, 2)), ("h1", (0, 4)), ("h2", (0, 4)), ("h3", (0, 4)),
-                       ("top", (0, 3)), ("share", (0, 3)), ("ss", (0, 1)), ("marker", (0, 1)), ("nondict", (0, 1))])
+                       ("top", (0, 3)), ("share", (0, 3)), ("ss", (0, 1)), ("marker", (0, 3)), ("nondict", (0, 1))])
 
 H_ARR = Harness(
     "arr", "vf.props.c14:h_arr", _params,
     tiers={
-        "quick": {"ranges": {"n": (1, 3), "top": (0, 2), "share": (0, 2)}, "fixed": {"p3": 0, "h3": 0, "nondict": 0},
+        "quick": {"ranges": {"n": (1, 3), "top": (0, 2), "share": (0, 2), "marker": (0, 2)}, "fixed": {"p3": 0, "h3": 0, "nondict": 0},
                   "partition": ["n", "top", "ss", "marker"], "timeout": 300,
                   "twin_fixed": {"n": 2, "top": 0, "ss": 1, "marker": 1}},
         "thorough": {"partition": ["n", "top", "share", "ss", "marker", "nondict"], "timeout": 1800,
@@ -160,7 +165,10 @@ SPEC = PropSpec(
 
 # ---------------------------------------------------------------------------------------------
 # states that are falsy but not None: standard unpickling calls __setstate__ for every state that is not None
-FALSY = [None, 0, False, 0.0, "", (), [], {}, {"k": 0}]
+# ... and states of other shapes (a 2-tuple is what object.__getstate__ returns for classes with __slots__: a class with its own
+# __setstate__ must still receive it whole)
+FALSY = [None, 0, False, 0.0, "", (), [], {}, {"k": 0},
+         (1,), (1, 2), ({"a": 1}, {"b": 2}), (None, {"b": 2}), ({"a": 1}, None), (1, 2, 3), [1, 2], "s", 5, {"a": {"b": 1}}]
 
 
 def _mk_state_class(name, base, state_idx, log):
